@@ -2,7 +2,7 @@
 
 Twin objects driven through wrappers at the Simulation API; compared on the observable snapshot
 (vp/snapshot.py) and on behavioural continuation."""
-from ..common import rng_for, h64, make_riscv, M32
+from ..common import guarded, rng_for, h64, make_riscv, M32
 from ..snapshot import riscv_snapshot, toy_snapshot, diff_names, INSPECT_RISCV, INSPECT_TOY, call_inspection, call_toy_inspection
 from ..gen import progs as G
 from ..gen import asm_rv as A
@@ -345,12 +345,12 @@ def run_shard(spec, res):
     rng = rng_for(prop, spec["tier"], spec["seed"], spec["kind"], spec["shard"])
     if spec["kind"] == "directed":
         for c in directed_life():
-            run_case(prop, c, res)
+            guarded(run_case, prop, c, res)
             res.evaluations += 1
         return
     for it in range(spec["n"]):
         case = gen_life_case(rng) if spec["kind"] == "life" else gen_pure_case(rng)
-        run_case(prop, case, res)
+        guarded(run_case, prop, case, res)
         res.evaluations += 1
         if it < 1:
             res.sample(case, 4)
